@@ -604,14 +604,19 @@ func ruleSchemaFlow(c *Ctx) []Obligation {
 			if viaRange != ck.viaRange {
 				return
 			}
-			// find the If on this lookup
-			for _, r := range *l.Referrers() {
-				ifi, ok := r.(*ssa.If)
+			// find the If that tests this lookup for presence (any of the forms presenceOf knows)
+			for _, blk := range build.Blocks {
+				ifi, ok := blk.Instrs[len(blk.Instrs)-1].(*ssa.If)
 				if !ok {
 					continue
 				}
+				pl, presentOnTrue, isP := presenceOf(ifi.Cond)
+				if !isP || pl != l {
+					continue
+				}
+				// the error is raised when presence == ck.errOn
 				errBlk := ifi.Block().Succs[1]
-				if ck.errOn {
+				if presentOnTrue == ck.errOn {
 					errBlk = ifi.Block().Succs[0]
 				}
 				if blockReturnsError(errBlk) {
